@@ -5,7 +5,7 @@ Property: after any sequence of additive or overwriting insertions (duplicates i
 batches), reading any inserted coordinate returns what a plain dictionary would hold, and reading
 a coordinate never inserted raises.
 -/
-import PorepyVerif.C46.LemmasK
+import PorepyVerif.C46.LemmasB
 
 namespace PorepyVerif.C46
 
@@ -367,6 +367,105 @@ theorem addK_ret (s : Store) (st : StoreK) (B : BatchK) (additive : Bool) :
     rw [keys_rowBatch]
 
 
+/-! ## Deepening round B: the property text clause by clause, neighbouring entry points -/
+
+/-- Clause "reading a coordinate never inserted raises an error", for EVERY history: if `c`
+    occurs in no batch of the `add` calls made so far, any `get` that asks for `c` raises. -/
+theorem never_inserted_raises (adds : List (List (Coord × Rat) × Bool)) (cs : List Coord) (c : Coord)
+    (hc : c ∈ cs) (h : ¬ insertedBy adds c) : get (reach adds) cs = none := by
+  apply get_missing_errors _ cs c hc
+  unfold abs
+  rw [get1_eq_none_iff, mem_keys_reach]
+  exact h
+
+/-- Clause "reading any inserted coordinate returns the value a plain dictionary would hold under
+    the same operations", for EVERY history: if every requested coordinate occurs in some earlier
+    batch, `get` succeeds and returns the entries of the dictionary written by the same calls. -/
+theorem inserted_reads_dict (adds : List (List (Coord × Rat) × Bool)) (cs : List Coord)
+    (h : ∀ c ∈ cs, insertedBy adds c) :
+    get (reach adds) cs = some (cs.map (fun c =>
+      ((adds.foldl (fun d o => Dict.addBatch o.2 d o.1) (fun _ => none)) c).getD 0)) ∧
+    ∀ c ∈ cs, ((adds.foldl (fun d o => Dict.addBatch o.2 d o.1) (fun _ => none)) c).isSome := by
+  have ha : abs (reach adds) = adds.foldl (fun d o => Dict.addBatch o.2 d o.1) (fun _ => none) :=
+    abs_foldl_add adds []
+  have hs : ∀ c ∈ cs, (abs (reach adds) c).isSome := by
+    intro c hc
+    have := (mem_keys_reach adds c).mpr (h c hc)
+    exact (get1_isSome_iff _ c).mpr this
+  refine ⟨?_, fun c hc => ha ▸ hs c hc⟩
+  rw [← ha]
+  exact get_present _ cs hs
+
+/-- Converse bookkeeping: a coordinate is stored after a history iff some `add` inserted it. -/
+theorem stored_iff_inserted (adds : List (List (Coord × Rat) × Bool)) (c : Coord) :
+    (abs (reach adds) c).isSome = true ↔ insertedBy adds c := by
+  unfold abs
+  rw [get1_isSome_iff, mem_keys_reach]
+
+/-- `intersect_sets` matches columns by a proximity query with tolerance 1e-10; on integer
+    columns of equal length, "squared distance below 1" already means equality, so the
+    tolerance match is the exact match used by the model (`get1`, `upsert`). -/
+theorem int_proximity_is_equality (a b : Coord) (h : a.length = b.length) :
+    sqDist a b < 1 ↔ a = b := sqDist_lt_one a b h
+
+/-- What `AdaptiveInterpolationTable._fill_values` relies on: for a batch of strictly increasing
+    (hence distinct) coordinates none of which is stored, the returned vector is the identity
+    `0, 1, …, n-1` (no permutation is applied), so `_pt` may be extended by `coord` as is. -/
+theorem add_ret_sorted_fresh (s : Store) (batch : List (Coord × Rat)) (additive : Bool)
+    (hs : (batch.map (·.1)).Pairwise (fun a b => lexLe a b = true ∧ a ≠ b))
+    (hn : ∀ c ∈ batch.map (·.1), abs s c = none) :
+    (add s batch additive).2 = List.range batch.length := by
+  symm
+  have hlen : (batch.map (·.1)).length = batch.length := List.length_map _
+  apply add_ret_unique
+  · intro i hi
+    have hi' : i < (batch.map (·.1)).length := by rw [hlen]; exact List.mem_range.mp hi
+    refine ⟨(batch.map (·.1))[i], List.getElem?_eq_getElem hi', hn _ (List.getElem_mem hi'), ?_⟩
+    intro j hj e
+    have hj' : j < (batch.map (·.1)).length := by omega
+    rw [List.getElem?_eq_getElem hj', Option.some.injEq] at e
+    exact (List.pairwise_iff_getElem.mp hs j i hj' hi' hj).2 e
+  · intro c hc _
+    rcases List.getElem_of_mem hc with ⟨i, hi, e⟩
+    exact ⟨i, List.mem_range.mpr (by rw [← hlen]; exact hi), by rw [List.getElem?_eq_getElem hi, e]⟩
+  · rw [← hlen, map_getD_range]
+    exact hs
+
+/-- `AdaptiveInterpolationTable.assign_values(val, coord, indices)` (the table's entry point to
+    `SparseNdArray.add`): if `_pt` was aligned with the stored indices (`_pt[:, j]` is the grid
+    point `g` of `_coords[:, j]`) and every given coordinate column is the grid point of its
+    index, then afterwards
+    (1) the table holds the dictionary overwritten with the batch,
+    (2) `_pt` is still aligned — because `coord` is permuted by the vector that `add` returns —,
+    (3) all value rows still share their coordinates. -/
+theorem assignValues_spec (g : Coord → List Rat) (s : Store) (st : StoreK) (pts : List (List Rat))
+    (B : BatchK) (hB : ∀ p ∈ B, p.2.length = (s :: st).length) (hk : SameKeys (s :: st))
+    (hA : Aligned g (s :: st, pts)) :
+    absK (assignValues (s :: st, pts) B (B.map (fun p => g p.1))).1 =
+        DictK.addBatch false (absK (s :: st)) B ∧
+    Aligned g (assignValues (s :: st, pts) B (B.map (fun p => g p.1))) ∧
+    SameKeys (assignValues (s :: st, pts) B (B.map (fun p => g p.1))).1 := by
+  refine ⟨addK_refines (s :: st) B false hB hk, ?_, (addK_preserves (s :: st) B false hk).1⟩
+  unfold Aligned assignValues at *
+  simp only [List.headD_cons] at hA
+  show pts ++ ((addK (s :: st) B false).2).map _ = _
+  rw [addK_ret]
+  by_cases he : B.isEmpty = true
+  · have : B = [] := by simpa using he
+    subst this
+    simp [addK, freshCoords, uniqueCoords, isort, dedup, hA]
+  · have h1 : (addK (s :: st) B false).1 = addRows false B 0 (s :: st) := by
+      unfold addK; rw [if_neg he]
+    rw [h1, headD_addRows, keys_add, keys_rowBatch, List.map_append, ← hA, List.map_map]
+    congr 1
+    apply List.map_congr_left
+    intro u hu
+    have hk := ((mem_freshCoords s _ u).mp hu).1
+    have e : B.map (fun p => g p.1) = (B.map (·.1)).map g := by rw [List.map_map]; rfl
+    simp only [Function.comp, e]
+    exact getD_map_idxOf g _ u hk
+
+
 /-! ### non-vacuity: concrete histories (the replay of finding F15 among them) -/
 
 /-- F15 history: add [2]→1, add [0]→5, add {[0]→10,[2]→20}, get [0],[2]  gives [10,20]. -/
@@ -456,5 +555,39 @@ example : SameKeys [[([1], 2), ([0], 3)], [([1], 5), ([0], 7)]] := ⟨[[1], [0]]
 example : (addK [[([0, 5], 1)], [([0, 5], 2)]]
     [([2, 1], [1, 1]), ([0, 5], [2, 2]), ([2, 1], [3, 3]), ([-1, 7], [4, 4])] false).2 = [3, 0] := by
   decide +kernel
+
+/-! ### non-vacuity of the round-B theorems -/
+
+example : get (reach [([([1], 2)], false), ([([0], 3), ([1], 4)], true)]) [[1], [5]] = none :=
+  never_inserted_raises _ _ [5] (by decide) (by
+    rintro ⟨o, ho, h⟩
+    simp only [List.mem_cons, List.not_mem_nil, or_false] at ho
+    rcases ho with rfl | rfl <;> simp at h)
+
+example : get (reach [([([1], 2)], false), ([([0], 3), ([1], 4)], true)]) [[1], [0], [1]]
+    = some [6, 3, 6] := by decide +kernel
+
+/-- the hypothesis of `inserted_reads_dict` holds for that history and inquiry -/
+example : ∀ c ∈ [[1], [0], [1]],
+    insertedBy [([([1], 2)], false), ([([0], 3), ([1], (4 : Rat))], true)] c := by
+  intro c hc
+  refine ⟨([([0], 3), ([1], 4)], true), by simp, ?_⟩
+  simp only [List.mem_cons, List.not_mem_nil, or_false] at hc
+  rcases hc with rfl | rfl | rfl <;> simp
+
+example : sqDist [1000000, -1] [999999, -1] = 1 ∧ sqDist [1000000, -1] [1000000, -1] = 0 := by decide
+
+example : (add [([5], 1)] [([0], 1), ([2], 2), ([7], 3)] false).2 = List.range 3 :=
+  add_ret_sorted_fresh _ _ _ (by decide) (by decide)
+
+/-- adaptive table with base point 0, resolution 1/2: index 2 is stored with `_pt` column 1;
+    assigning indices 3, 0, 3 with their grid points keeps `_pt` aligned (columns 0 and 3/2 are
+    appended in the order of the sorted new indices) -/
+example : Aligned (gridPoint [0] [1 / 2]) ([[([2], 5)]], [[1]]) := by
+  unfold Aligned; decide +kernel
+
+example : assignValues ([[([2], 5)]], [[1]]) [([3], [7]), ([0], [8]), ([3], [9])]
+      ([([3], [7]), ([0], [8]), ([3], [(9 : Rat)])].map (fun p => gridPoint [0] [1 / 2] p.1))
+    = ([[([2], 5), ([0], 8), ([3], 9)]], [[1], [0], [3 / 2]]) := by decide +kernel
 
 end PorepyVerif.C46
